@@ -60,7 +60,7 @@ CLAIMED["C08"] = dict(
 )
 CLAIMED["C09"] = dict(
     category="model_checking",
-    text="Every import edge set on 4 files (65,536 directory states) and every import/companion/signature-edge configuration on 3 files (111,616 states) is written to disk and loaded by the real CompilerSession::graph under several hash seeds; the answer is compared with a reference reachability/cycle DFS (sources, edges, signature pairing, provider order, reported cycle steps). Splice semantics: 14 consumer contexts x every assignment of 14 closed provider files (values, thunks, functions, type providers incl. a generative one, providers with companion signatures, a provider importing others) to their holes (924 programs): the multi-file program and the program with every import replaced textually by the parenthesised provider text get the same verdict and result, plus fixed generativity expectations. Path spellings: one file imported twice under every ordered pair of 7 spellings (relative, dotted, absolute, symlinked) with and without a back import under 3 spellings (196 directory states): one source per canonical file, cycles detected.",
+    text="Every import edge set on 4 files (65,536 directory states) and every import/companion/signature-edge configuration on 3 files (111,616 states) is written to disk and loaded by the real CompilerSession::graph under several hash seeds; the answer is compared with a reference reachability/cycle DFS (sources, edges, signature pairing, provider order, reported cycle steps). Splice semantics: 14 consumer contexts x every assignment of 14 closed provider files (values, thunks, functions, type providers incl. a generative one, providers with companion signatures, a provider importing others) to their holes (924 programs): the multi-file program and the program with every import replaced textually by the parenthesised provider text get the same verdict and result, plus fixed generativity expectations. Path spellings: one file imported twice under every ordered pair of 9 spellings (relative, dotted, absolute, symlinked files, `..` after a symlink to a directory with another parent, with decoys where folding the text would land) with and without a back import under 4 spellings (405 directory states): one source per canonical file, cycles detected.",
     design_ref="C09",
     note="Random larger graphs and @[literal] splices are not covered. States = directory states, transitions = loads, all on the implementation.",
     technique="exhaustive enumeration of file-graph states, each loaded by the real loader and compared with a reference graph model",
